@@ -7,7 +7,9 @@ from rv.checks import common
 PROP = "C17"
 ALPHABETS = [["a", "b"], ["a", "é", "ü"], ["é", "è", "€"], ["a", "€", "₭", "👋"], ["ü", "ű", "👋", "👍"], ["a", "b", "é"],
              # same continuation byte under different lead bytes (e2 82 ac / e3 82 ab; e4 b8 ad / e0 b8 81; f0 9f 98 8a / e2 98 83)
-             ["€", "カ", "a"], ["中", "ก"], ["😊", "☃", "€"], ["é", "ũ", "ã"]]
+             ["€", "カ", "a"], ["中", "ก"], ["😊", "☃", "€"], ["é", "ũ", "ã"],
+             # falsy symbols: the NUL character (byte 0 after to_bytes) and - for to_cfg only - integer labels incl. 0
+             ["\x00", "a", "é"], ["\x00", "b"], [0, 1, 2], [0, 7]]
 RULE = (
     "case = (generated automaton over an alphabet mixing 1-, 2-, 3- and 4-byte characters with shared byte prefixes, eps "
     "arcs, state names that are ints / tuples / strings coinciding with alphabet symbols as WFSA.from_string produces; "
@@ -34,7 +36,7 @@ def gates(tier):
         "min_decided": {APIS[0]: 5000 * k, APIS[1]: 5000 * k, APIS[2]: 1500 * k, APIS[3]: 1500 * k},
         "shapes": {c: 5 * k for c in ["names:symbol", "names:int", "names:tuple", "eps_arc", "bytes:2", "bytes:3", "bytes:4",
                                       "truncated-encodings", "spliced-encodings", "recursion:left", "recursion:right", "from_string-operand",
-                                      "multichar-terminal", "sr:Q", "sr:Float"]},
+                                      "multichar-terminal", "sr:Q", "sr:Float", "alphabet:ints"]},
         "min_hashseeds": 2,
     }
 
@@ -45,6 +47,9 @@ def gen_case(rng, spec):
 
     alpha = rng.choice(ALPHABETS)
     kind = rng.choice(["int", "tuple", "symbol", "symbol", "from_string"])
+    ints = not all(isinstance(a, str) for a in alpha)
+    if ints:
+        return gen_case_ints(rng, spec, alpha)
     m = GA.gen_wfsa(rng, max_states=4, alphabet=alpha, max_arcs=7)
     if kind == "symbol":
         # state names are strings over the alphabet, as WFSA.from_string / from_strings produce
@@ -52,8 +57,10 @@ def gen_case(rng, spec):
         rng.shuffle(pool)
         m["names"] = pool[: m["n"]]
     elif kind == "int":
-        m["names"] = list(range(m["n"]))
-    elif kind == "tuple":
+        # not byte values: after to_bytes() the alphabet consists of ints 0..255, and the merged-grammar monitor
+        # unions the vocabularies of two conversions (LarkStuff renames states for the same reason)
+        m["names"] = [1000 + i for i in range(m["n"])]
+    elif kind in ("tuple", "from_string"):
         m["names"] = [("s", i) for i in range(m["n"])]
     m2 = GA.gen_wfsa(rng, max_states=3, alphabet=alpha, max_arcs=5)
     m2["names"] = [("t", i) for i in range(m2["n"])]
@@ -98,7 +105,54 @@ def gen_case(rng, spec):
             "g": {"S": g["S"], "V": terms, "rules": rules}, "maxlen": 3 if spec.get("tier") == "quick" else 4}
 
 
+def gen_case_ints(rng, spec, alpha):
+    "integer labels (as in byte-level automata), incl. the falsy label 0: automaton -> grammar only"
+    from rv.gen import automata as GA
+
+    m = GA.gen_wfsa(rng, max_states=4, alphabet=alpha, max_arcs=7)
+    m["names"] = [("s", i) for i in range(m["n"])] if rng.random() < 0.5 else [100 + i for i in range(m["n"])]
+    R = "Float" if "eps_cycle" in GA.classify_wfsa(m) else rng.choice(["Q", "Float"])
+    return {"m": m, "ints": True, "R": R, "maxlen": 3 if spec.get("tier") == "quick" else 4}
+
+
+def run_case_ints(case, ctx):
+    from genlm.grammar.wfsa import base
+
+    from rv import codec, lib
+    from rv.core import close2
+    from rv.gen import automata as GA
+    from rv.gen import grammars as GG
+    from rv.ref import fsaref
+
+    m, R = case["m"], case["R"]
+    cls = set(GA.classify_wfsa(m)) | {f"sr:{R}", "alphabet:ints", "names:int"}
+    ctx.case(codec.fingerprint(case), True, sorted(cls))
+    try:
+        D = lib.dense_from_case(m, "Q")
+        strings = list(GG.strings_upto(m["alphabet"], case["maxlen"]))
+        want = {x: D(x) for x in strings}
+    except fsaref.Singular:
+        ctx.skip("case", "oracle-not-applicable:Singular")
+        return
+    for rec in ("right", "left"):
+        ctx.shape[f"recursion:{rec}"] += 1
+        c2 = dict(case, recursion=rec)
+        ok, A = ctx.call(APIS[0], c2, lib.build_wfsa, m, R, base.WFSA)
+        if not ok:
+            continue
+        ok, G = ctx.call(APIS[0], c2, lambda: A.to_cfg(recursion=rec))
+        if not ok:
+            continue
+        for x in strings:
+            ok, v = ctx.call(APIS[0], dict(c2, x=list(x)), G, x)
+            if ok:
+                good = lib.same("Q", v, want[x], exact=True) if R == "Q" else close2(lib.have_value(R, v), want[x], 1e-8, 1e-12)
+                ctx.check(APIS[0], good, "to_cfg/value/integer-labels", dict(c2, x=list(x)), {"x": list(x), "have": v, "want": want[x]})
+
+
 def run_case(case, ctx):
+    if case.get("ints"):
+        return run_case_ints(case, ctx)
     from genlm.grammar import CFG
     from genlm.grammar.wfsa import base
 
